@@ -190,6 +190,42 @@ theorem inv_step (fs0 : Name → Option Bytes) (msgs : Nat → Bytes) (W : World
           · exact Or.inl h1
           · exact Or.inr ⟨v, (hold v n).mpr hv⟩
 
+  | failWrite w part =>
+    unfold act
+    cases hp : (W.ws w).pc with
+    | start => simpa [hp] using (⟨hm, hf, hu, hc, ho, hs⟩ : Inv fs0 msgs W)
+    | done n => simpa [hp] using (⟨hm, hf, hu, hc, ho, hs⟩ : Inv fs0 msgs W)
+    | named s k => simpa [hp] using (⟨hm, hf, hu, hc, ho, hs⟩ : Inv fs0 msgs W)
+    | created n0 =>
+      simp only [hp]
+      have hw : holds W w n0 := Or.inl hp
+      have hold : ∀ v n, holds (setFile W n0 part) v n ↔ holds W v n := by
+        intro v n; unfold holds setFile; exact Iff.rfl
+      have hfs' : ∀ n, (setFile W n0 part).fs n = if n = n0 then some part else W.fs n := fun n => rfl
+      refine ⟨hm, ?_, ?_, ?_, ?_, ?_⟩
+      · intro v n hh
+        obtain ⟨a, b⟩ := hf v n ((hold v n).mp hh)
+        refine ⟨a, ?_⟩
+        rw [hfs']; by_cases hn : n = n0 <;> simp [hn, b]
+      · intro v v' n h1 h2; exact hu v v' n ((hold v n).mp h1) ((hold v' n).mp h2)
+      · intro v n hd
+        have hd' : (W.ws v).pc = .done n := hd
+        have hne : n ≠ n0 := by
+          intro e; subst e
+          have hvw : v = w := hu v w n (Or.inr hd') hw
+          subst hvw; rw [hp] at hd'; cases hd'
+        rw [hfs']; simp [hne, hc v n hd']
+      · intro n hn
+        have hne : n ≠ n0 := by intro e; subst e; exact hn (hf w n hw).1
+        rw [hfs']; simp [hne, ho n hn]
+      · intro n hn
+        by_cases hne : n = n0
+        · subst hne; exact Or.inr ⟨w, (hold w n).mpr hw⟩
+        · rw [hfs'] at hn; simp [hne] at hn
+          rcases hs n hn with h1 | ⟨v, hv⟩
+          · exact Or.inl h1
+          · exact Or.inr ⟨v, (hold v n).mpr hv⟩
+
 /-- the invariant holds after every interleaving of the writers' steps and every clock reading -/
 theorem inv_run (fs0 : Name → Option Bytes) (msgs : Nat → Bytes) (acts : List Act) :
     Inv fs0 msgs (run { fs := fs0, ws := fun w => { msg := msgs w } } acts) := by
@@ -226,6 +262,19 @@ theorem every_delivery_reaches_a_writer :
     protocolFootprint.consumeTask = true ∧ protocolFootprint.consumeLoopsForever = true ∧
     protocolFootprint.consumeCallsCallbackPerItem = true ∧ protocolFootprint.callbackIsDispatch = true ∧
     protocolFootprint.writeWhenOutput = true ∧ protocolFootprint.writeArgs = true := by
+  decide
+
+/-- a store that fails while writing (any number of them, at any point of any interleaving) costs no other message
+    its file: it is an action like the others in `distinct_files_exact_bytes`, so every writer that finishes still
+    owns a file of its own with exactly its bytes and every older file is untouched.  Concretely: the second of
+    three stores in one clock second fails after two bytes; the first and the third are intact. -/
+theorem example_failed_write :
+    let W := run { fs := fun _ => none, ws := fun w => { msg := [w.toUInt8, w.toUInt8, w.toUInt8] } }
+      [.readClock 0 7, .step 0, .step 0, .readClock 1 7, .step 1, .step 1, .failWrite 1 [1, 1],
+       .readClock 2 7, .step 2, .step 2, .step 2, .step 2]
+    (W.ws 0).pc = .done (7, 0) ∧ W.fs (7, 0) = some [0, 0, 0] ∧
+    (W.ws 1).pc = .created (7, 1) ∧ W.fs (7, 1) = some [1, 1] ∧
+    (W.ws 2).pc = .done (7, 2) ∧ W.fs (7, 2) = some [2, 2, 2] := by
   decide
 
 /-- non-vacuity: two writers, the same clock second, interleaved so that both look at the same name -/
